@@ -25,7 +25,7 @@ BudSim   == [way |-> 4, way2 |-> 2, rand |-> 3, hs |-> 4, badhs |-> 2, msg |-> 8
 
 Reset == [k |-> "Reset", retries |-> RETRIES, cap |-> CAP, sess_ttl |-> TTL]
 Init == /\ h = HInit(RETRIES, CAP, TTL) /\ env = EInit /\ bud = BUD
-        /\ hist = <<Reset>> /\ last = [in |-> Reset, rin |-> [k |-> "Nop"], hadSess |-> FALSE, hadPend |-> FALSE, pendRids |-> {}, expPend |-> FALSE, lateInt |-> FALSE, hadOld |-> FALSE, wayHs |-> FALSE]
+        /\ hist = <<Reset>> /\ last = [in |-> Reset, rin |-> [k |-> "Nop"], hadSess |-> FALSE, hadPend |-> FALSE, pendRids |-> {}, expPend |-> FALSE, lateInt |-> FALSE, hadOld |-> FALSE, wayHsForeign |-> FALSE, wayHs |-> FALSE]
         /\ subm = {} /\ outc = [r \in RIDS |-> 0] /\ proved = {} /\ xreq = {} /\ rot = {}
 
 Parties == PEERS \cup (IF ATTACKER THEN {"A"} ELSE {})
@@ -44,7 +44,7 @@ Randoms == {[k |-> "PeerRandom", party |-> p, from |-> HomeSock(p), claim |-> p]
 Sib(s) == CASE s = "a1" -> "a1b" [] s = "a2" -> "a2b" [] s = "a3" -> "a3b" [] s = "aA" -> "aAb"
             [] s = "a1b" -> "a1" [] s = "a2b" -> "a2" [] s = "a3b" -> "a3" [] s = "aAb" -> "aA" [] OTHER -> s
 Ways == UNION {{[k |-> "PeerWhoAreYou", party |-> p, from |-> f, echo |-> env.seen[i].n, seq |-> q, claim |-> env.seen[i].id] :
-              p \in Parties, q \in WAYSEQS, f \in {env.seen[i].to} \cup (IF DEPTH > 0 THEN {Sib(env.seen[i].to)} ELSE {})} : i \in 1..Len(env.seen)}   \* sibling sources in simulation only (the model ignores them)
+              p \in Parties, q \in WAYSEQS, f \in {env.seen[i].to} \cup (IF DEPTH > 0 \/ "sib" \in MSGSEL THEN {Sib(env.seen[i].to)} ELSE {})} : i \in 1..Len(env.seen)}   \* sibling sources in simulation only (the model ignores them)
 WaysOk == {w \in Ways : w.from \in Socks(w.party) \/ (w.party = "A" /\ DEPTH > 0)}    \* source-address spoofing of WHOAREYOU only in simulation
 HsMsgs == {[t |-> "req", xid |-> "x1", body |-> "ping"]} \cup {[t |-> "resp", rid |-> r, body |-> "pong"] : r \in subm}
 Handshakes == UNION {UNION {{[k |-> "PeerHandshake", party |-> p, from |-> env.froml[i].sock, claim |-> env.froml[i].id, chal |-> env.froml[i].idn,
@@ -116,6 +116,7 @@ Do(kind, in) ==
                                     /\ (\A i \in 1..Len(h.active) : h.active[i].rid # rin.msg.rid)
                                     /\ (\E i \in 1..Len(h.active) : h.active[i].addr = Addr(rin.src, rin.from) /\ ~h.active[i].int),
                         hadOld |-> rin.k = "msg" /\ SessIdx(h, Addr(rin.src, rin.from)) # 0 /\ Sess(h, Addr(rin.src, rin.from)).old # "none",
+                        wayHsForeign |-> rin.k = "way" /\ \E i \in 1..Len(h.active) : h.active[i].n = rin.echo /\ h.active[i].hs /\ h.active[i].addr.sock # rin.from,
                         wayHs |-> rin.k = "way" /\ \E i \in 1..Len(h.active) : h.active[i].n = rin.echo /\ h.active[i].hs /\ h.active[i].kind = "msg" /\ h.active[i].addr.sock = rin.from]
         /\ hist' = Append(hist, in)
         /\ subm' = IF in.k = "AppRequest" THEN subm \cup {in.rid} ELSE subm
@@ -226,6 +227,8 @@ GoalReplayUnverifiableHs == ~(last.in.k = "Replay" /\ last.rin.k = "hs" /\ Len(h
                               /\ hist[Len(hist) - 1].from = HomeSock(hist[Len(hist) - 1].party) \o "b" /\ last.in.from = hist[Len(hist) - 1].from)
 \* a message under the all-zero key, from the socket of a peer whose session has been re-keyed (it keeps its previous keys too)
 GoalZeroKeyAfterRekey == ~(last.in.k = "PeerMessage" /\ "key" \in DOMAIN last.in /\ last.in.key = "zero" /\ last.hadOld)
+\* a WHOAREYOU echoing the nonce of a handshake the node has sent, but from another socket than that handshake went to: ignored
+GoalForeignWayOnHs == ~(last.wayHsForeign)
 GoalBadSigKeepsChallenge == ~(last.rin.k = "hs" /\ last.rin.signer = "bad" /\ HasChal(h, Addr(last.rin.src, last.rin.from)))
 GoalReplayedHs  == ~(last.in.k = "Replay" /\ last.rin.k = "hs" /\ Len(h.sessq) >= 1)
 =============================================================================
